@@ -132,8 +132,8 @@ def run(repo: Repo, chk: Check) -> None:
             chk.ob('R-TEMPLATE', cname, ok, f'kind={k} tz_only={tz_only}', fa.loc,
                    {'emitted': [vrepr(p.value) for p in res], 'reference': want.describe()},
                    what=f'{k} is not written as {want.describe()}')
-            if ok:
-                emitted[f'{k}/{21 if tz_only else 22}'] = rets[0].value
+            # the reader is checked against the reference pattern even when the writer deviates
+            emitted[f'{k}/{21 if tz_only else 22}'] = want
     chk.minimum('emitted address patterns', len(emitted), 11)
     # unknown kind is rejected by the writer
     hooks = CodecHooks(rows + [(b'zz9', 36, b'\x01\x02\x03', 20, 'x')], kind='zz9')
